@@ -27,7 +27,9 @@ def run_job(job, w):
     harness.setup_process(job["K"])
     ty = None
     if job.get("targeted_yield"):
-        ty = harness.install_targeted_yield(p=0.3, max_sleep=0.004, seed=job.get("line_seed", 0))
+        which = job.get("ty_which", "emission")
+        ty = harness.install_targeted_yield(p=0.3 if which == "emission" else 0.15, max_sleep=0.004,
+                                            seed=job.get("line_seed", 0), which=which)
     ly = None
     if job.get("line_yield"):
         ly = harness.install_line_yield(job["line_yield"], seed=job.get("line_seed", 0))
@@ -149,6 +151,9 @@ def main():
         for i, j in enumerate(jobs):
             j["targeted_yield"] = (rnd + i) % 2 == 0     # half of the children: sleeps inside the snapshot hand-offs
             j["line_seed"] = rnd * 100 + i
+            # ... or between the critical sections of the controller's callbacks (finishedCheck, postMortemCheck,
+            # _stopComponents, finish / restart / kill)
+            j["ty_which"] = ("emission", "controller", "both")[((rnd + i) // 2) % 3]
         if thorough:
             # LINE-level yield injection on ~10% of the children (slow: K=10 and fewer scenarios)
             for i, j in enumerate(jobs):
